@@ -3,7 +3,7 @@
 
   c10.rt    <disable> <avc> <ncalls> (<mtu> <bare> <nunits> (<four> <nal>)*)*
             => panic | ok <ncalls> (<npkts> (<payload> <head> <res>)*)*
-  c10.dec   <avc> <nitems> (s <nal> | a <hdr> <n> <nal>* | f <hdr> <n> <chunk>*)*
+  c10.dec   <avc> <nitems> (s <nal> | a <hdr> <rfc> <n> <nal>* | f <hdr> <n> <chunk>*)*
             => panic | ok <npkts> (<payload> <head> <res>)*
   c15.h264  <avc> <npre> <payload>* <nframe> <payload>*
             => panic | ok <n> <res>* <n> <res>*
@@ -40,7 +40,12 @@ def rdItem : Rd Item := do
   let t ← Rd.tok
   match t with
   | "s" => do let n ← Rd.bytes; pure (.single n)
-  | "a" => do let h ← Rd.u8; let ns ← Rd.list Rd.bytes; pure (.stapA h ns)
+  | "a" => do
+    -- <hdr> <rfc> <n> <nal>*: with rfc = 1 the Go encoder claims to have followed the RFC's
+    -- F/NRI rule; a header different from `Spec.Rfc6184.stapHdr` is then a protocol error (the two
+    -- independently written encoders disagree), reported loudly by the driver
+    let h ← Rd.u8; let rfc ← Rd.bool; let ns ← Rd.list Rd.bytes
+    if rfc && h != stapHdr ns then Rd.fail else pure (.stapA h ns)
   | "f" => do let h ← Rd.u8; let cs ← Rd.list Rd.bytes; pure (.fuA h cs)
   | _ => Rd.fail
 
